@@ -54,8 +54,8 @@ def register(lib):
 
     def _len(interp, v):
         v = norm(v)
-        if isinstance(v, L.SymSet):
-            return symset_card(v)
+        if isinstance(v, L.SymSet) and sv.is_scalar(norm(v.seq.fn(sv.fresh_int("sp")))):
+            return symset_card(v)       # (sets of non-scalar elements: the base model's SymSetLen)
         return old.fn(interp, v)
     f = LibFunc("len", _len)
     f._c14_symset = True
